@@ -35,6 +35,8 @@ type itEvent struct {
 	body *itBody
 	node ast.Node
 	path []ast.Node // ancestors from the outer declaration down to the node
+	// events found inside an inlined callee: parameters of the callee -> argument expressions of the call
+	bind map[types.Object]ast.Expr
 }
 
 func (e *itEvent) pos() token.Pos { return e.node.Pos() }
@@ -296,7 +298,17 @@ func (h *itHandle) collect(c *Ctx, p *packages.Package, outer *ast.FuncDecl, sta
 	syncLits := syncClosures(info, outer, lits)
 	var inlineNode ast.Node
 	var inlinePath []ast.Node
+	var inlineBind map[types.Object]ast.Expr
 	inlining := map[*ast.FuncLit]bool{}
+	inliningDecl := map[*ast.FuncDecl]bool{}
+	// calls that are the operand of a go statement (handled as launches)
+	parentGo := map[*ast.CallExpr]bool{}
+	ast.Inspect(start, func(n ast.Node) bool {
+		if g, ok := n.(*ast.GoStmt); ok {
+			parentGo[g.Call] = true
+		}
+		return true
+	})
 	var walk func(n ast.Node)
 	cur := func() *itBody { return bodyStack[len(bodyStack)-1] }
 	pathCopy := func() []ast.Node { return append([]ast.Node(nil), stack...) }
@@ -363,12 +375,50 @@ func (h *itHandle) collect(c *Ctx, p *packages.Package, outer *ast.FuncDecl, sta
 			}
 			h.launches = append(h.launches, l)
 		case *ast.CallExpr:
+			// a function of the same package that receives the handle and is called synchronously (an
+			// extracted block): its events happen at the call site
+			if fn := callee(info, x); fn != nil && inlineNode == nil && follow {
+				if _, isGo := parentGo[x]; !isGo {
+					if cd, cp := c.DeclOf(fn); cd != nil && cp == p && cd.Body != nil && cd != outer && !inliningDecl[cd] {
+						params := flattenParams(cd.Type.Params)
+						for i, a := range x.Args {
+							if i >= len(params) || params[i] == nil || !denotes(a) {
+								continue
+							}
+							po := info.ObjectOf(params[i])
+							saved := denotes
+							denotes = func(e ast.Expr) bool {
+								id, ok := ast.Unparen(e).(*ast.Ident)
+								return ok && info.ObjectOf(id) == po
+							}
+							inliningDecl[cd] = true
+							inlineNode, inlinePath = x, pathCopy()
+							inlineBind = map[types.Object]ast.Expr{}
+							for k, a2 := range x.Args {
+								if k < len(params) && params[k] != nil {
+									inlineBind[info.ObjectOf(params[k])] = a2
+								}
+							}
+							walk(cd.Body)
+							inlineNode, inlinePath, inlineBind = nil, nil, nil
+							delete(inliningDecl, cd)
+							denotes = saved
+						}
+					}
+				}
+			}
 			if id, ok := ast.Unparen(x.Fun).(*ast.Ident); ok && inlineNode == nil {
 				if lit := lits[info.ObjectOf(id)]; lit != nil && syncLits[lit] && !inlining[lit] {
 					inlining[lit] = true
 					inlineNode, inlinePath = x, pathCopy()
+					inlineBind = map[types.Object]ast.Expr{}
+					for k, prm := range flattenParams(lit.Type.Params) {
+						if prm != nil && k < len(x.Args) {
+							inlineBind[info.ObjectOf(prm)] = x.Args[k]
+						}
+					}
 					walk(lit)
-					inlineNode, inlinePath = nil, nil
+					inlineNode, inlinePath, inlineBind = nil, nil, nil
 					delete(inlining, lit)
 				}
 			}
@@ -376,7 +426,7 @@ func (h *itHandle) collect(c *Ctx, p *packages.Package, outer *ast.FuncDecl, sta
 				if fn := callee(info, x); fn != nil && fullName(fn) == modPath+"/pkg/obiiter.(IBioSequence)."+sel.Sel.Name {
 					ev := &itEvent{kind: sel.Sel.Name, call: x, body: cur(), node: x, path: pathCopy()}
 					if inlineNode != nil {
-						ev.node, ev.path = inlineNode, inlinePath
+						ev.node, ev.path, ev.bind = inlineNode, inlinePath, inlineBind
 					}
 					if len(x.Args) > 0 {
 						ev.arg = x.Args[0]
@@ -390,7 +440,7 @@ func (h *itHandle) collect(c *Ctx, p *packages.Package, outer *ast.FuncDecl, sta
 				if s2, ok := ast.Unparen(s1.X).(*ast.SelectorExpr); ok && s2.Sel.Name == "pointer" && denotes(s2.X) {
 					ev := &itEvent{kind: "Push", send: x, arg: x.Value, body: cur(), node: x, path: pathCopy()}
 					if inlineNode != nil {
-						ev.node, ev.path = inlineNode, inlinePath
+						ev.node, ev.path, ev.bind = inlineNode, inlinePath, inlineBind
 					}
 					h.events = append(h.events, ev)
 				}
